@@ -95,6 +95,10 @@ class ByteBlock(Block):
 
     @byte_interval.setter
     def byte_interval(self, value: typing.Optional["ByteInterval"]) -> None:
+        if value is self._byte_interval:
+            # Already there: nothing to do (taking it out and putting it
+            # back would disturb anyone iterating over the collection).
+            return
         if self._byte_interval is not None:
             self._byte_interval.blocks.discard(self)
         if value is not None:
@@ -411,6 +415,10 @@ class ProxyBlock(CfgNode):
 
     @module.setter
     def module(self, value: typing.Optional["Module"]) -> None:
+        if value is self._module:
+            # Already there: nothing to do (taking it out and putting it
+            # back would disturb anyone iterating over the collection).
+            return
         if self._module is not None:
             self._module.proxies.discard(self)
         if value is not None:
